@@ -130,7 +130,11 @@ def judge(chk, events, cases, name, jobs=12, timeout=1500):
 def replay_cases(doc, runner):
     """--replay: re-execute the case on the real code and let TLC judge again."""
     case = doc["case"]["case"]
-    events = runner(case)
+    try:
+        events = runner(case)
+    except Exception as ex:     # noqa
+        print("VIOLATION property=%s replay=(this case)  # %s:raised: %r" % (doc["property"], case["kind"], ex))
+        return 1
     for i, e in enumerate(events):
         e["_case"] = 0
         e["id"] = i
@@ -786,11 +790,23 @@ def run_case(case):
     return RUNNERS[case["kind"]](case)
 
 
-def collect(cases):
-    """run all cases on the real code -> events (tagged with their case index)"""
+def collect(cases, chk=None, repo_marker="pulsarbat"):
+    """run all cases on the real code -> events (tagged with their case index).
+    An exception raised inside pulsarbat / astropy on these (valid) inputs is a
+    violation of the property (key <kind>:raised); anything else is a harness bug."""
+    import traceback
     events = []
     for ci, case in enumerate(cases):
-        for e in run_case(case):
+        try:
+            evs = run_case(case)
+        except Exception as ex:     # noqa
+            frames = traceback.extract_tb(ex.__traceback__)
+            inside = any(("/%s/" % repo_marker) in f.filename or "/astropy/" in f.filename for f in frames)
+            if chk is None or not inside:
+                raise
+            chk.violation("%s:raised" % case["kind"], "%s case raised %r" % (case["kind"], ex), {"case": case, "event": "raised", "clause": "raised"})
+            continue
+        for e in evs:
             e["_case"] = ci
             e["id"] = len(events)
             events.append(e)
